@@ -5,6 +5,7 @@ mod c05;
 mod c06;
 mod c08b;
 mod c17;
+mod c18b;
 mod c19;
 mod common;
 mod uper;
@@ -26,6 +27,7 @@ fn main() {
         "C08" => c08b::run(ctx),
         "C16" => uper::run_c16b(ctx),
         "C17" => c17::run(ctx),
+        "C18" => c18b::run(ctx),
         "C19" => c19::run(ctx),
         other => {
             eprintln!("vrt does not serve {other}");
